@@ -71,7 +71,8 @@ def r1_cut_check(ck, F):
             if b.term(bb)["t"] == "switch" and b.dominates(ed[1], bb) and b.dominates(bb, fl[0].bb) and bb != fl[0].bb:
                 e, enum, labels, oth = switch_on(b, bb)
                 guards.append(e.show()[:60])
-        ck.ob(R, "only-nonempty-and-parent-guards", len(guards) == 2 and any("last_key" in g for g in guards) and any("last_mut" in g for g in guards), f"between the size test and the flush only {guards} are tested (block not empty, parent index exists)", b, fl[0])
+        kinds = {("nonempty" if "last_key" in g else ("parent" if "last_mut" in g else None)) for g in guards}
+        ck.ob(R, "only-nonempty-and-parent-guards", kinds == {"nonempty", "parent"}, f"between the size test and the flush only {guards} are tested (block not empty, parent index exists)", b, fl[0])
 
 
 def r1_sole_entry_path(ck, F):
@@ -137,6 +138,12 @@ def r2_level_check(ck, F):
         if ed is not None:
             reached = ed[1] if data[0][1] in (">=", ">") else ed[2]
         ck.ob(R, "levels-checked-after-data-cut", reached is not None and b.dominates(reached, sl[0][0].bb), "index levels are examined on the path where the data block reached the threshold", b, sl[0][0])
+    # ... and after the data block was flushed: the entry the flush adds to the deepest index level is what can fill
+    # it, so the cascade must not run before (a level would be cut one data block late)
+    dfl = [s for s, c, t in calls(b, A("write_block")) if is_self_field(b.arg_exprs(s)[1], "block_writer")]
+    if dfl and sl:
+        before = dfl[0].bb in b.reachable_from(sl[0][0].bb) and not b.dominates(dfl[0], sl[0][0])
+        ck.ob(R, "cascade-after-data-flush", not before, "the index-level loop is entered after the data block flush, never before it", b, sl[0][0])
 
 
 def r3_clamp(ck, F):
